@@ -376,9 +376,10 @@ theorem bushing_power_eq (X1 X2 : Pose K) (V1 V2 : Vel K) (XF XM : Pose K) (k c 
       = -(docBushingPE (⟨constV3 k.r, constV3 k.t⟩ : Vec6 (Jet K)) ⟨liftV3 o.q.r o.qdot.r, liftV3 o.q.t o.qdot.t⟩).eps
         - docBushingPower c o.qdot
     ∧ (0 ≤ c.r.x → 0 ≤ c.r.y → 0 ≤ c.r.z → 0 ≤ c.t.x → 0 ≤ c.t.y → 0 ≤ c.t.z → -docBushingPower c o.qdot ≤ 0)
-    ∧ (c = ⟨V3.zero, V3.zero⟩ → docBushingPower c o.qdot = 0) := by
+    ∧ (c = ⟨V3.zero, V3.zero⟩ → docBushingPower c o.qdot = 0)
+    ∧ o.pe = docBushingPE k o.q := by
   intro o
-  refine ⟨?_, ?_, ?_⟩
+  refine ⟨?_, ?_, ?_, by simp only [o, bushing, docBushingPE]; ring⟩
   · rw [bushing_power_virtual_work _ _ _ _ _ _ _ _ _ _ _ h]
     have hf : o.f = docBushingF k c o.q o.qdot := by
       simp only [o, bushing, docBushingF]
@@ -583,41 +584,184 @@ theorem ef_power_eq (sqrt : K → K) (hs : SqrtSpec sqrt) (vt : K) (hvt : 0 < vt
       have := (core 0 hA0 hc (le_refl _)).1 (not_lt.mp hf)
       linarith [this]
 
-/-- **ExponentialSpringForce**, normal part (not clamped at the cap): `fz·vz = −d(fzElas/d₂)/dt − cz vz² fzElas`,
-and when the force is clamped to zero the lost power is `−vz·fzElas ≤ 0` -/
-theorem exp_normal_power (E cz vz : K) (hE : 0 ≤ E) (hcz : 0 ≤ cz) :
-    -- E = fzElas = d₁ exp(−d₂(pz−d₀)); d(E/d₂)/dt = −vz·E
-    let fz := E + -cz * vz * E
-    ((¬ fz < 0) → fz * vz + (-(vz * E)) = -(cz * (vz * vz) * E) ∧ -(cz * (vz * vz) * E) ≤ 0)
-    ∧ (fz < 0 → (0 : K) * vz + (-(vz * E)) ≤ 0) := by
-  intro fz
-  constructor
-  · intro _
-    refine ⟨by simp only [fz]; ring, ?_⟩
-    have := mul_nonneg (mul_nonneg hcz (mul_self_nonneg vz)) hE
-    linarith
-  · intro h
-    simp only [fz] at h
-    have h1 : E * (1 - cz * vz) < 0 := by linarith [show E + -cz * vz * E = E * (1 - cz * vz) by ring]
-    have hEpos : 0 < E := by
-      rcases eq_or_lt_of_le hE with h0 | h0
-      · rw [← h0] at h1; simp at h1
-      · exact h0
-    have h2 : 1 - cz * vz < 0 := by
-      by_contra hc; have := mul_nonneg hE (not_lt.mp hc); linarith
-    have hv : 0 ≤ vz := by
-      by_contra hc
-      have := mul_nonneg hcz (neg_nonneg.mpr (not_le.mp hc).le); linarith
-    have := mul_nonneg hv hE
-    linarith
+/-! ### ExponentialSpringForce, normal part — about `expNormal` / `expPE`, the definitions the driver runs -/
 
-/-- rate of the exponential spring's normal strain energy `fzElas/d₂` (jet of `exp`: `exp(a+εb) = exp a + ε b exp a`) -/
-theorem exp_pe_rate (expv d1 d2 vz : K) (hd2 : d2 ≠ 0) :
-    -- value `expv = exp(−d₂(pz−d₀))`; its jet along `ṗz = vz` is `⟨expv, −d₂ vz expv⟩`
-    ((Jet.const d1 * (⟨expv, -d2 * vz * expv⟩ : Jet K)) / Jet.const d2).eps = -(vz * (d1 * expv)) := by
-  simp only [Jet.div_eps, Jet.mul_eps, Jet.mul_re, Jet.const_re, Jet.const_eps]
+/-- `d/dt` of the strain energy `d₁exp(−d₂(pz−d₀))/d₂` along `ṗz = vz` is `−vz·fzElas` -/
+theorem expElasticPE_rate (exp : K → K) (d0 d1 d2 pz vz : K) (hd2 : d2 ≠ 0) :
+    (expElasticPE (Jet.exp exp) (Jet.const d0) (Jet.const d1) (Jet.const d2) (⟨pz, vz⟩ : Jet K)).eps
+      = -(vz * (d1 * exp (-d2 * (pz - d0)))) := by
+  simp only [expElasticPE, Jet.div_eps, Jet.mul_eps, Jet.mul_re, Jet.exp_re, Jet.exp_eps, Jet.sub_re, Jet.sub_eps,
+    Jet.neg_re, Jet.neg_eps, Jet.const_re, Jet.const_eps]
   field_simp
   ring
+
+/-- **ExponentialSpringForce**, normal force, cap `maxNormalForce` not active: with `o = expNormal …` (the coded
+normal force incl. its clamp at zero) and the coded energy `expPE = fzElas/d₂`:
+`o.fz·vz = −d(PE)/dt + diss`, `diss ≤ 0`, and `diss = 0` without normal viscosity.
+(With the cap active the coded energy is `(max − fzDamp)/d₂`, see notes: the source carries a TODO there.) -/
+theorem exp_normal_power_eq (exp : K → K) (d0 d1 d2 cz maxF pz vz : K) (hd2 : d2 ≠ 0) (hcz : 0 ≤ cz)
+    (hE : 0 ≤ d1 * exp (-d2 * (pz - d0)))
+    (hcap : d1 * exp (-d2 * (pz - d0)) + -cz * vz * (d1 * exp (-d2 * (pz - d0))) ≤ maxF) (hmax : 0 ≤ maxF) :
+    let o := expNormal exp d0 d1 d2 cz maxF pz vz
+    let rate := (expElasticPE (Jet.exp exp) (Jet.const d0) (Jet.const d1) (Jet.const d2) (⟨pz, vz⟩ : Jet K)).eps
+    expPE exp d0 d1 d2 cz maxF pz vz = expElasticPE exp d0 d1 d2 pz
+    ∧ o.fz * vz + rate ≤ 0
+    ∧ (cz = 0 → o.fz * vz + rate = 0) := by
+  intro o rate
+  have hrate : rate = -(vz * (d1 * exp (-d2 * (pz - d0)))) := expElasticPE_rate exp d0 d1 d2 pz vz hd2
+  rw [hrate]
+  simp only [o, expPE, expElasticPE, expNormal]
+  generalize d1 * exp (-d2 * (pz - d0)) = E at hE hcap ⊢
+  by_cases h : E + -cz * vz * E < 0
+  · -- clamped at zero: the force is suppressed while the stored energy still decreases
+    have h0 : ¬ (maxF < 0) := not_lt.mpr hmax
+    simp only [if_pos h, if_neg h0]
+    refine ⟨trivial, ?_, ?_⟩
+    · have hEpos : 0 < E := by
+        rcases eq_or_lt_of_le hE with h1 | h1
+        · rw [← h1] at h; simp at h
+        · exact h1
+      have h2 : 1 - cz * vz < 0 := by
+        by_contra hc
+        have := mul_nonneg hE (not_lt.mp hc); nlinarith
+      have hv : 0 ≤ vz := by
+        by_contra hc
+        have := mul_nonneg hcz (neg_nonneg.mpr (not_le.mp hc).le); linarith
+      have := mul_nonneg hv hE
+      linarith
+    · intro hc0; subst hc0; exfalso; simp at h; linarith
+  · have h1 : ¬ (maxF < E + -cz * vz * E) := not_lt.mpr hcap
+    simp only [if_neg h, if_neg h1]
+    refine ⟨trivial, ?_, ?_⟩
+    · have := mul_nonneg (mul_nonneg hcz (mul_self_nonneg vz)) hE
+      nlinarith
+    · intro hc0; subst hc0; ring
+
+/-! ### CableSpring: tension `f` along a path of length `L`; the path delivers the power `−f·L̇` to the bodies
+(`CablePath::calcCablePower`, C45) -/
+
+/-- rate of the cable spring's energy `k·max(0,L−L0)²/2` along `L̇` -/
+theorem cablePE_rate (k L0 L Ld : K) :
+    (cablePE (Jet.const k) (Jet.const L0) (⟨L, Ld⟩ : Jet K)).eps = if 0 < L - L0 then k * (L - L0) * Ld else 0 := by
+  simp only [cablePE, kmax, Jet.lt_iff, Jet.sub_re, Jet.const_re, Jet.re_0]
+  split_ifs <;> simp <;> field_simp <;> ring
+
+/-- **CableSpring**: `f·L̇ = d(PE)/dt + powerLoss` (i.e. the delivered power `−f·L̇ = −d(PE)/dt − powerLoss`), `powerLoss ≥ 0`, `powerLoss = 0` without dissipation, and the coded
+energy is `cablePE` -/
+theorem cable_power_eq (k c L0 L Ld : K) (hk : 0 ≤ k) (hc : 0 ≤ c) :
+    let o := cableSpring k c L0 L Ld
+    o.f * Ld = (cablePE (Jet.const k) (Jet.const L0) (⟨L, Ld⟩ : Jet K)).eps + o.powerLoss
+    ∧ 0 ≤ o.powerLoss ∧ (c = 0 → o.powerLoss = 0) ∧ o.pe = cablePE k L0 L := by
+  intro o
+  rw [cablePE_rate]
+  simp only [o, cableSpring, cablePE, kmax]
+  by_cases hx : 0 < L - L0
+  · have hne : ¬ (¬ (L - L0 < 0) ∧ ¬ (0 < L - L0)) := fun h => h.2 hx
+    simp only [if_pos hx, if_neg hne]
+    have hkx : 0 ≤ k * (L - L0) := mul_nonneg hk hx.le
+    refine ⟨?_, ?_, ?_, trivial⟩
+    · split_ifs <;> ring
+    · split_ifs with h1
+      · -- f_rate = diss = kx·c·L̇ : powerLoss = kx c L̇² ≥ 0
+        have := mul_nonneg (mul_nonneg hkx hc) (mul_self_nonneg Ld)
+        nlinarith
+      · -- f_rate = −kx (diss ≤ −kx ≤ 0): L̇ must be ≤ 0
+        have h2 : k * (L - L0) * c * Ld ≤ -(k * (L - L0)) := not_lt.mp h1
+        have hLd : Ld ≤ 0 ∨ k * (L - L0) = 0 := by
+          by_contra hcon
+          push Not at hcon
+          have hp : 0 < k * (L - L0) := lt_of_le_of_ne hkx (Ne.symm hcon.2)
+          have := mul_nonneg (mul_nonneg hkx hc) hcon.1.le
+          linarith
+        rcases hLd with h3 | h3
+        · nlinarith
+        · rw [h3]; simp
+    · intro hc0; subst hc0
+      split_ifs with h1
+      · ring
+      · have h2 : (0 : K) ≤ -(k * (L - L0)) := by simpa using not_lt.mp h1
+        have : k * (L - L0) = 0 := le_antisymm (by linarith) hkx
+        rw [this]; simp
+  · have hz : ¬ ((0 : K) < 0) := lt_irrefl _
+    simp only [if_neg hx, lt_irrefl, not_false_eq_true, and_self, if_true]
+    simp
+
+/-! ### Hertz contact of CompliantContactSubsystem (in the frame of surface 1, which is the frame the generator works in:
+`vel` is the velocity of surface 2's contact point relative to surface 1, `force` acts on surface 2) -/
+
+/-- **Hertz generator**: when a force is generated (`0 < fNormal`) the power delivered through the contact is
+`force·vel = −fH·ẋ − powerLoss` with `fH·ẋ = d(2/5 fH x)/dt` (`hertzPE_rate`), the reported `powerLoss` is `≥ 0` in every
+branch, and the reported energy is `2/5 fH x` -/
+theorem hertz_power_eq (sqrt : K → K) (hs : SqrtSpec sqrt) (signif vtrans : K) (hvt : 0 < vtrans)
+    (m1 m2 : HertzMat K) (normal origin : V3 K) (depth : K) (p12 w12 v12 : V3 K) (R e : K) (hn : normSq normal = 1)
+    (he : 0 ≤ e) (hk : 0 ≤ m1.k23 * (m2.k23 / (m1.k23 + m2.k23)))
+    (hc : 0 ≤ m1.c * (m2.k23 / (m1.k23 + m2.k23)) + m2.c * (1 - m2.k23 / (m1.k23 + m2.k23)))
+    (hud : 0 ≤ combineMu2 m1.ud m2.ud) (hus : combineMu2 m1.ud m2.ud ≤ combineMu2 m1.us m2.us)
+    (huv : 0 ≤ combineMu2 m1.uv m2.uv) :
+    let o := hertzContact sqrt signif vtrans m1 m2 normal origin depth p12 w12 v12 R e
+    (0 < o.fNormal → dot o.force o.vel + o.fH * o.xdot = -o.powerLoss ∧ o.pe = 2 / 5 * o.fH * depth)
+    ∧ 0 ≤ o.powerLoss := by
+  simp only [hertzContact]
+  have hn' : dot normal normal = 1 := hn
+  by_cases h1 : depth ≤ 0
+  · simp only [if_pos h1]; simp
+  · simp only [if_neg h1]
+    have hx : 0 ≤ depth := (not_le.mp h1).le
+    generalize hγ : (m1.c * (m2.k23 / (m1.k23 + m2.k23)) + m2.c * (1 - m2.k23 / (m1.k23 + m2.k23)) : K) = γ at hc ⊢
+    have hA0 : 0 ≤ e * (4 / 3) * (m1.k23 * (m2.k23 / (m1.k23 + m2.k23))) * depth
+        * sqrt (R * (m1.k23 * (m2.k23 / (m1.k23 + m2.k23))) * depth) :=
+      mul_nonneg (mul_nonneg (mul_nonneg (mul_nonneg he (by norm_num)) hk) hx) (hs.nonneg _)
+    generalize (e * (4 / 3) * (m1.k23 * (m2.k23 / (m1.k23 + m2.k23))) * depth
+        * sqrt (R * (m1.k23 * (m2.k23 / (m1.k23 + m2.k23))) * depth) : K) = A at hA0 ⊢
+    generalize (v12 + cross w12 (origin + smul (depth * (1 / 2 - m2.k23 / (m1.k23 + m2.k23))) normal - p12) : V3 K) = vel
+    by_cases h2 : A + A * (3 / 2) * γ * -(dot vel normal) ≤ 0
+    · simp only [if_pos h2]; simp
+    · simp only [if_neg h2]
+      have hvn : dot (vel - smul (-(-(dot vel normal))) normal) normal = 0 := tangent_dot_normal_neg vel normal hn
+      generalize hN : normSq (vel - smul (-(-(dot vel normal))) normal) = N
+      have hN0 : 0 ≤ N := hN ▸ normSq_nonneg _
+      have hHC : 0 ≤ A * (3 / 2) * γ * -(dot vel normal) * -(dot vel normal) := by
+        have := mul_nonneg (mul_nonneg (mul_nonneg hA0 (by norm_num : (0:K) ≤ 3 / 2)) hc) (mul_self_nonneg (-(dot vel normal)))
+        nlinarith
+      by_cases h3 : signif * signif < N
+      · simp only [if_pos h3]
+        have hsq := hs.sq N hN0
+        have hspos : 0 < sqrt N := by
+          rcases lt_or_eq_of_le (hs.nonneg N) with h | h
+          · exact h
+          · exfalso; rw [← h] at hsq; simp only [mul_zero] at hsq
+            have : 0 ≤ signif * signif := mul_self_nonneg _
+            rw [← hsq] at h3; linarith
+        have hmu := (stribeck_bounds (combineMu2 m1.us m2.us) (combineMu2 m1.ud m2.ud) (combineMu2 m1.uv m2.uv * vtrans)
+          (sqrt N * (1 / vtrans)) hud hus (mul_nonneg huv hvt.le) (mul_nonneg hspos.le (by positivity))).1
+        generalize sqrt N = s at hsq hspos hmu ⊢
+        generalize stribeck (K := K) _ _ _ _ = muv at hmu ⊢
+        have hF : 0 ≤ A + A * (3 / 2) * γ * -(dot vel normal) := (not_le.mp h2).le
+        refine ⟨fun _ => ⟨?_, trivial⟩, ?_⟩
+        · -- force·vel
+          have hdecomp : dot (smul (-((A + A * (3 / 2) * γ * -(dot vel normal)) * muv) / s) (vel - smul (-(-(dot vel normal))) normal)) vel
+              = -((A + A * (3 / 2) * γ * -(dot vel normal)) * muv) / s * N := by
+            rw [smul_dot]
+            have : dot (vel - smul (-(-(dot vel normal))) normal) vel = N := by
+              rw [← hN]
+              simp only [normSq, dot, smul, V3.sub_x, V3.sub_y, V3.sub_z] at hvn ⊢
+              linear_combination (vel.x * normal.x + vel.y * normal.y + vel.z * normal.z) * hvn
+            rw [this]
+          have e1 : dot (smul A normal + (smul (A * (3 / 2) * γ * -(dot vel normal)) normal
+                + smul (-((A + A * (3 / 2) * γ * -(dot vel normal)) * muv) / s) (vel - smul (-(-(dot vel normal))) normal))) vel
+              = (A + A * (3 / 2) * γ * -(dot vel normal)) * dot vel normal
+                + dot (smul (-((A + A * (3 / 2) * γ * -(dot vel normal)) * muv) / s) (vel - smul (-(-(dot vel normal))) normal)) vel := by
+            simp only [dot, smul, V3.add_x, V3.add_y, V3.add_z]; ring
+          rw [e1, hdecomp, ← hsq]
+          field_simp
+          ring
+        · have : 0 ≤ (A + A * (3 / 2) * γ * -(dot vel normal)) * muv * s := mul_nonneg (mul_nonneg hF hmu) hspos.le
+          linarith
+      · simp only [if_neg h3]
+        refine ⟨fun _ => ⟨?_, trivial⟩, ?_⟩
+        · simp only [dot, smul, V3.add_x, V3.add_y, V3.add_z, V3.zero_x, V3.zero_y, V3.zero_z]; ring
+        · linarith
+
 end ordered
 
 end ForceLaws
